@@ -92,6 +92,7 @@ func runC17(c *Ctx) {
 	c.heartBeatEveryBeat("S10", "S11", "S12")
 	c.lockDirectoryStampedOnceItExists("S14")
 	c.heartBeatStampsEveryBeat("S15")
+	c.lockDirectoryAgedAsListed("S16")
 	c.rule("S1", "heartbeat lifecycle: started on every successful acquire with a cancellable child context registered in the lock's store, the lock's period and a file inside the lock directory; the loop writes every iteration and ends only on context error; Unlock cancels the store first", 6)
 	c.rule("S2", "writer interval I(p) and reader threshold T(p) are linear in the same period field: I ≤ p, T − I ≥ p, comparison is age > T, both sides in the same unit", 3)
 	c.rule("S3", "IsStale: constant false only on a failed filesystem call; the empty directory is judged by its own age; all heartbeat files must be stale; nil time info is not stale", 4)
